@@ -285,7 +285,7 @@ def enumerate_cases(tier, seed):
     from . import c04
 
     # real-structure windows carry input distortion: left to C03/C04
-    cases = [c for c in c04.enumerate_cases(tier, seed) if "window" not in c]
+    cases = [c for c in c04.enumerate_cases(tier, seed) if "window" not in c and "hood" not in c]
     strands = [(["DA", "DT", "DG", "DC"], "legacy"),
                (["RA", "RU", "RG", "RC"], "legacy"),
                (["DC", "DA"], "modern"), (["RG", "RU"], "modern"),
